@@ -1074,8 +1074,11 @@ class Authenticated(BaseClientHandler):
         # actually present (the cached attributes can be stale).
         #
         results: list[tuple[str, set[str], set[str] | None]] = []
+        ref_mbox_name = cmd.mailbox_name
+        if getattr(cmd, "list_ref_trailing_delim", False):
+            ref_mbox_name += "/"
         async for mbox_name, attributes, child_info in Mailbox.list(
-            cmd.mailbox_name,
+            ref_mbox_name,
             cmd.list_mailbox,
             self.server,
             lsub,
